@@ -4,7 +4,7 @@ invariant is the same reference scan (for cat arrows: the boxes compose from dom
 import itertools
 
 from mc import ref, build, pools
-from mc.core import Part, pmap, digest, safe
+from mc.core import Part, pmap, digest, safe, time_limit
 
 CLASSES = ("tensor", "circuit", "zx", "biclosed", "cartesian")
 
@@ -84,7 +84,8 @@ def apply(d, op, cls, pool_vals):
     if name == "interchange":
         return d.interchange(op[1], op[2], left=op[3])
     if name == "normal_form":
-        return d.normal_form(left=op[1])
+        with time_limit(10, "normal_form"):
+            return d.normal_form(left=op[1])
     if name == "normalize_step":
         return next(itertools.islice(d.normalize(left=op[1]), op[2], None))
     if name == "foliate_step":
